@@ -278,6 +278,11 @@ struct ValidGen {
         if (a.ring) { int m = (int) r.below(4); if (m == 0) s = {s[0], s[s.size() / 2], s[0]}; else if (m == 1) s = {s[0], s[0], s[0], s[0]}; else if (m == 2) s = {s[0], s[s.size() / 2]}; else s = {s[0]}; }
         else s = {s[0], s[0]};
         return true; }
+    // a ring collapsed to one point (all coordinates equal) — as an element or a hole — next to proper crossings elsewhere
+    bool mutateCollapseRing(HGeo& g) { std::vector<SeqRef> v; collect(g, v); std::vector<SeqRef> rings; for (auto& x : v) if (x.ring && x.s->size() >= 4) rings.push_back(x); if (rings.empty()) return false;
+        auto& s = *rings[r.below(rings.size())].s; HP p = r.chance(50) ? s[0] : HP{s[0].x + (double) r.range(9, 14), s[0].y + (double) r.range(9, 14)}; for (auto& q : s) q = p; return true; }
+    bool mutateBowtie(HGeo& g) { std::vector<SeqRef> v; collect(g, v); std::vector<SeqRef> rings; for (auto& x : v) if (x.ring && x.s->size() >= 5 && !hpEq((*x.s)[1], (*x.s)[2])) rings.push_back(x); if (rings.empty()) return false;
+        auto& s = *rings[r.below(rings.size())].s; size_t i = 1 + r.below(s.size() - 3); std::swap(s[i], s[i + 1]); return true; }
     bool mutateNonFinite(HGeo& g) { std::vector<std::vector<HP>*> v; eachSeq(g, [&](std::vector<HP>& s, bool, int) { if (!s.empty()) v.push_back(&s); }); if (v.empty()) return false;
         auto& s = *v[r.below(v.size())]; size_t i = r.below(s.size()); double bad = r.chance(50) ? std::numeric_limits<double>::quiet_NaN() : (r.chance(50) ? INFINITY : -INFINITY);
         if (r.chance(50)) s[i].x = bad; else s[i].y = bad; return true; }
@@ -298,6 +303,7 @@ struct ValidGen {
         else if (m < 39) { if (mutateUnclose(g)) family += "+unclosed"; }
         else if (m < 42) { if (mutateFew(g)) family += "+few"; }
         else if (m < 45) { if (mutateNonFinite(g)) family += "+nonfinite"; }
+        else if (m < 51 && (g.type == 3 || g.type == 6)) { int k = r.range(1, 3); bool any = false; for (int i = 0; i < k; i++) any |= mutateBowtie(g); if (mutateCollapseRing(g)) { family += any ? "+collapsed_ring+bowtie" : "+collapsed_ring"; } }
         return g; }
 };
 
